@@ -201,8 +201,9 @@ static DBusHandlerResult server_filter(DBusConnection *c, DBusMessage *m, void *
     s.api_ok = message_via_api(m, &s.via_api, &s.api_problem);
     g_lw->tr.ev("app: message type=%d serial=%u len=%d", dbus_message_get_type(m), dbus_message_get_serial(m), len);
     sc.seen.push_back(std::move(s));
+    if (g_lw->on_message) g_lw->on_message(c, m);
     _dbus_set_fail_alloc_counter(saved_counter);
-    return DBUS_HANDLER_RESULT_HANDLED;
+    return g_lw->on_message ? DBUS_HANDLER_RESULT_NOT_YET_HANDLED : DBUS_HANDLER_RESULT_HANDLED;
   }
   return DBUS_HANDLER_RESULT_NOT_YET_HANDLED;
 }
